@@ -192,3 +192,34 @@ def gen_reduce(tier, seed, universe=None, maxlen=3):
         stats["cases"] += 1
         stats["ops"] += h - 30
     return [ln.rstrip() for ln in lines], stats
+
+
+def gen_stack(tier, seed):
+    """flodym_array_stack / split: list elements that store the same dimensions in different orders"""
+    r = rng(seed, "array-ops/stack")
+    letters = "abe" if tier == "quick" else "abde"      # a, b, e have equal lengths
+    lines, n = [], 0
+    stats = {"cases": 0, "ops": 0}
+    for k in range(0, 4 if tier == "quick" else 4):
+        for base in itertools.combinations(letters, k):
+            perms = list(itertools.permutations(base))
+            for p1 in perms:
+                for p2 in perms:
+                    lines.append(f"case {n} stack first={''.join(p1) or '-'} second={''.join(p2) or '-'}")
+                    n += 1
+                    lines += header("abcde")
+                    lines.append("dim $9 D:n:new:s:sfirst,ssecond,sthird")
+                    lines.append(dset_line(10, p1))
+                    lines.append(dset_line(11, p2))
+                    lines.append(arr_line(20, 10, p1, rand_vals(r, size(p1))))
+                    lines.append(arr_line(21, 11, p2, rand_vals(r, size(p2))))
+                    lines.append(arr_line(22, 10, p1, rand_vals(r, size(p1))))
+                    lines.append("stack $30 $9 $20 $21 $22")
+                    lines.append("split $30 n")
+                    lines.append("split $30 new")
+                    if p1:
+                        lines.append(f"split $30 {p1[-1]}")
+                    lines.append("stack $31 $9 $21 $20")       # fewer arrays than items
+                    stats["cases"] += 1
+                    stats["ops"] += 5
+    return [ln.rstrip() for ln in lines], stats
